@@ -129,7 +129,7 @@ pub fn def(prop: &str) -> Option<PropDef> {
         "C08" => PropDef {
             id: "C08",
             level: "exploration",
-            rule: "One evaluation = one codeAction request at one position inside one published diagnostic range, in a sequential simulated session (the simulator contributes the second party and the protocol here, not interleavings: the property quantifies over inputs only). Sessions open and edit documents in all language ids with texts that put astral-plane and combining characters, tabs, CRLF, lints on the first and last line and missing trailing newlines in front of and inside lints; after every text change the editor model requests code actions at every character position inside every published range (first, last and a seeded sample of the interior for long ranges). Oracle: published ranges equal the reference lints' spans under the editor's own UTF-16 arithmetic (C09-style equality); every reference lint containing the position is offered (its HarperIgnoreLint command carries that very lint); for each of its suggestions some returned TextEdit has exactly the lint's range and, applied the way an editor applies it, yields what an independent splice of the suggestion into the character span yields; spelling lints carry add-to-dictionary commands with exactly the flagged word. Non-trivial: the run probed at least one position inside a lint with a suggestion. Distinct: by the script.",
+            rule: "One evaluation = one codeAction request at one position inside one published diagnostic range, in a sequential simulated session (the simulator contributes the second party and the protocol here, not interleavings: the property quantifies over inputs only). Sessions open and edit documents in all language ids with texts that put astral-plane and combining characters, tabs, CRLF and lone-CR line ends, lints on the first and last line and missing trailing newlines in front of and inside lints; after every text change the editor model requests code actions at every character position inside every published range (first, last and a seeded sample of the interior for long ranges). Oracle: published ranges equal the reference lints' spans under the editor's own UTF-16 arithmetic (C09-style equality); every reference lint containing the position is offered (its HarperIgnoreLint command carries that very lint); for each of its suggestions some returned TextEdit has exactly the lint's range and, applied the way an editor applies it, yields what an independent splice of the suggestion into the character span yields; spelling lints carry add-to-dictionary commands with exactly the flagged word. Non-trivial: the run probed at least one position inside a lint with a suggestion. Distinct: by the script.",
             assumptions: vec![
                 "the reference lints come from the same harper-core (fresh instances); only the position arithmetic, the span->range->edit path and the range->span lookup are independent",
                 "positions inside surrogate pairs are not probed (they are not valid LSP positions)",
